@@ -168,3 +168,7 @@ def or_(xs):
     if not xs:
         return z3.BoolVal(False)
     return z3.Or(*xs) if len(xs) > 1 else xs[0]
+
+
+# [E-UUID] names the program already holds (file names of collections): a name derived from a fresh uuid4 is none of them
+known_name = F("known_name", Val, BoolS)
